@@ -390,11 +390,43 @@ def tr_laplacian(src: str, tree):
             ret = Tr16(dict(comps)).expr(s.value)
             continue
         raise U(f"interpolate_laplacian: {u[:80]}")
-    if ret is None or seen_fixed != fixed or not cutoff_rule or "lap_degrees" not in out[0]:
+    if ret is None or seen_fixed != fixed or not cutoff_rule or not out or "lap_degrees" not in out[0]:
         raise U("interpolate_laplacian: statements changed")
     out.append(f"Definition lap_row (v_f0 v_f1 v_f2 v_deg v_r : R) : R :=\n  {ret}.")
+    # which atom's function object / grid does the closure appended for atom i use when it is finally called?
+    # (a name that is free in the lambda is looked up after the loop has finished: it then denotes the LAST atom's object)
+    fa = inner[0].args
+    dflt = dict(zip([a.arg for a in fa.args][len(fa.args) - len(fa.defaults):], fa.defaults))
+    for nme in ("start_index", "final_index"):
+        if not (nme in dflt and isinstance(dflt[nme], ast.Name) and dflt[nme].id == nme):
+            raise U(f"interpolate_laplacian: {nme} is not bound at definition time")
+    app = [n for n in ast.walk(fn) if isinstance(n, ast.Call) and ast.unparse(n.func) == "interpolate_funcs.append"]
+    if len(app) != 1 or len(app[0].args) != 1 or not isinstance(app[0].args[0], ast.Lambda):
+        raise U("interpolate_laplacian: interpolate_funcs.append(lambda ...)")
+    lam = app[0].args[0]
+    la = lam.args
+    lnames = [a.arg for a in la.args]
+    ldef = dict(zip(lnames[len(lnames) - len(la.defaults):], la.defaults))
+    call = lam.body
+    if not (isinstance(call, ast.Call) and isinstance(call.func, ast.Name) and len(call.args) == 3 and not call.keywords
+            and [ast.unparse(a) for a in call.args[::2]] == ["points", "cut_off"] and lnames[:2] == ["points", "cut_off"]
+            and isinstance(call.args[1], ast.Name)):
+        raise U(f"interpolate_laplacian: closure body {ast.unparse(lam)}")
+
+    def binding(name, target):
+        if name in ldef:
+            if isinstance(ldef[name], ast.Name) and ldef[name].id == target:
+                return "v_i"        # bound when atom i is processed
+            raise U(f"interpolate_laplacian: default {name}={ast.unparse(ldef[name])}")
+        if name == target and name not in lnames:
+            return "v_last"         # free variable: resolved when the closure runs, after the loop
+        raise U(f"interpolate_laplacian: closure refers to {name}")
+    b_fun = binding(call.func.id, "interpolate_laplacian_atom_grid")
+    b_grid = binding(call.args[1].id, "atom_grid")
+    out.append(f"Definition lap_slice_of (v_i v_last : nat) : nat := {b_fun}.   (* whose func_vals slice *)")
+    out.append(f"Definition lap_grid_of (v_i v_last : nat) : nat := {b_grid}.    (* whose atomic grid *)")
     unit = {"unit": "interpolate_laplacian", "file": "src/grid/poisson.py", "lines": [fn.lineno, fn.end_lineno],
-            "sha": src_sha(ast.get_source_segment(src, fn))}
+            "sha": src_sha(ast.get_source_segment(src, fn)), "closure_binding": {"function": b_fun, "grid": b_grid}}
     return ["(* ---- interpolate_laplacian ---- *)"] + out, unit
 
 
